@@ -119,7 +119,7 @@ func init() {
 }
 
 func runC11(b *Batch) {
-	n := b.Pick(200, 5000) / b.NBatches
+	n := b.Pick(2000, 60000) / b.NBatches
 	var wg sync.WaitGroup
 	sem := make(chan struct{}, 4)
 	for i := 0; i < n; i++ {
@@ -309,7 +309,7 @@ func init() {
 }
 
 func runC12(b *Batch) {
-	n := b.Pick(300, 10000) / b.NBatches
+	n := b.Pick(2400, 60000) / b.NBatches
 	var wg sync.WaitGroup
 	sem := make(chan struct{}, 4)
 	for i := 0; i < n; i++ {
